@@ -30,12 +30,8 @@ CACHES = {"_bins", "_numpy_bins"}
 CACHE_READS = {"self.numpy_bins", "self.bins", "self._numpy_bins", "self._bins"}
 
 
-def run(ctx):
-    m = ctx.model
+def check_cache_coherence(ctx, rule, m):
     FW = m.cls("FixedWidthBinning")
-
-    # ---- C04.a cache coherence ---------------------------------------------------------------------------------
-    ctx.rule("C04.a", "every grid-field write is followed by invalidation of both edge caches (or is a guarded no-op); no stale cache read in between", 3)
     writers = 0
     for fi in list(FW.methods.values()) + list(FW.getters.values()) + list(FW.setters.values()):
         has = any(w.root == "self" and w.attr in GRID for st in ast.walk(fi.node) if isinstance(st, ast.stmt) for w in writes_of(st))
@@ -91,9 +87,18 @@ def run(ctx):
             missing = sorted(c for c in CACHES if inval[c] <= last)
             problems.append(f"`{U(gw[-1][1])[:50]}` changes the grid but {missing} is not reset to None afterwards on a path")
             problems += stale
-        ctx.check(not problems and npaths > 0, "C04.a", f"{fi.qualname}:cache-coherence", f"{npaths} grid-writing path(s), caches reset on each",
+        ctx.check(not problems and npaths > 0, rule, f"{fi.qualname}:cache-coherence", f"{npaths} grid-writing path(s), caches reset on each",
                   " ; ".join(sorted(set(problems))[:3]) or "no grid-writing path", fi.where)
-    ctx.check(writers >= 3, "C04.a", "FixedWidthBinning:writers", f"{writers} methods write grid fields", f"only {writers} grid writers found", FW.where)
+    ctx.check(writers >= 3, rule, "FixedWidthBinning:writers", f"{writers} methods write grid fields", f"only {writers} grid writers found", FW.where)
+
+
+def run(ctx):
+    m = ctx.model
+    FW = m.cls("FixedWidthBinning")
+
+    # ---- C04.a cache coherence ---------------------------------------------------------------------------------
+    ctx.rule("C04.a", "every grid-field write is followed by invalidation of both edge caches (or is a guarded no-op); no stale cache read in between", 3)
+    check_cache_coherence(ctx, "C04.a", m)
 
     # ---- C04.b grow then reshape -----------------------------------------------------------------------------------
     ctx.rule("C04.b", "force_bin_existence is followed immediately by _reshape_data(<that binning>.bin_count, <returned map>, <its axis>)", 4)
@@ -258,3 +263,9 @@ def run(ctx):
     okd = any("np.min(data)" in c and "np.max(data)" in c and "includes_right_edge=includes_right_edge" in c for c in calls)
     ctx.check(okr, "C04.e", "fixed_width_binning:range", "bins forced for range[0] and range[1] (right end inclusive)", f"range growth calls: {calls}", fw.where)
     ctx.check(okd, "C04.e", "fixed_width_binning:data", "bins forced for min(data) and max(data) with includes_right_edge forwarded", f"data growth calls: {calls}", fw.where)
+
+    # ---- C04.d the lookup that follows the growth uses the kernel's convention (shared with C03.c) -----------------
+    ctx.rule("C04.d", "after growth fill() looks the value up with the same interval convention as the kernels", 8)
+    from rules import conventions as conv
+    conv.check_find_bin_1d(ctx, "C04.d", m.cls("Histogram1D").methods["find_bin"])
+    conv.check_find_bin_nd(ctx, "C04.d", m.cls("HistogramND").methods["find_bin"])
